@@ -6,6 +6,10 @@ ALL = ["C%02d" % i for i in range(1, 21)]
 
 # property -> (level, design_ref, engine, technique, level text, level note)
 CLAIMED = {
+ "C19": ("model_checking", "DESIGN.md §2 C19", "vp",
+   "bounded-exhaustive history enumeration (sequential) plus stateful exhaustive interleaving exploration of the real array code at memory-access granularity (TSan-ABI scheduling points)",
+   "Sequential: every history up to the stated depth of index/grow calls over boundary indices/sizes, for all element sizes x initial sizes x auto-grow settings, against address-stability/disjointness/zero-init/persistence/error-code oracles. Concurrent: lib/array.c compiled with the TSan ABI; 2-3 coroutines run all combinations of index/grow scripts that force bin allocation and bin-table reallocation; ALL interleavings at every access, allocator call and lock operation are explored, merged on an exact, address-canonical key of the unit's heap; every instrumented access is checked against the ASan shadow so a read of a freed bin table is reported.",
+   "Script lengths bounded (2 threads x 2 ops, 3 threads x 1 op in quick); sequentially consistent scheduler; element read-modify-write by the harness is atomic; 64-bit fingerprints."),
  "C01": ("model_checking", "DESIGN.md §2 C01", "vp",
    "stateful exhaustive exploration of all interleavings of the real writer and reader code at memory-access granularity (TSan-ABI scheduling points, exact state key, no preemption bound)",
    "lib/ringbuffer.c is compiled with the ThreadSanitizer ABI and linked against a stub runtime, so every load/store it makes to the shared header and data mapping, every memcpy and every semaphore call is a scheduling point of a deterministic two-coroutine scheduler. For every combination of a writer script and a reader script (writes of several lengths incl. a full-size one, alloc+commit, read, read into a too-small buffer, peek+reclaim), with and without semaphore, at start positions where header and payload straddle the wrap point, on rings whose stale content equals the chunk marker, ALL interleavings are explored (merged on an exact state key) and judged against FIFO/exactly-once/untorn/refusal oracles, a final sequential drain, the semaphore count and the memory order of the marker accesses.",
